@@ -1025,3 +1025,10 @@ def simplify_scalar(x):
             return s.as_long()
         return s
     return x
+
+
+def same_term(a, b):
+    """Syntactic identity of two (possibly symbolic) integers."""
+    if isinstance(a, z3.ExprRef) and isinstance(b, z3.ExprRef):
+        return a.eq(b)
+    return type(a) == type(b) and a == b
